@@ -447,4 +447,113 @@ flag exactly when a transition mode is given, and only enabled devices receive i
 def applyReq (req : Nat → Segment) (s : Sent) : Nat → Segment := fun d =>
   if s.transition.isSome ∧ (s.drives.map (·.1)).contains d then s.segment else req d
 
+/-! ## Other contexts of a wrapper tree (additive; nothing above depends on this part)
+
+* `WithSegment` with a transition mode other than `Immediate`
+  (`autd3-driver/src/datagram/with_segment.rs` → `GainOperationGenerator` → `GainOp::pack`)
+* the trees as the elements of a `GainSTM { gains: Vec<G>, .. }`
+  (`autd3-driver/src/datagram/stm/gain/{mod,implement}.rs`, mode `PhaseIntensityFull`)
+-/
+
+/-- every `TransitionMode` (the payloads of `SysTime` / `GPIO` play no role for a gain) -/
+inductive TMode where
+  | syncIdx | sysTime | gpio | ext | immediate
+deriving DecidableEq, Repr
+
+/-- failures of a send that are not the gain's own -/
+inductive SendFail where
+  | gain (f : Fail)
+  | invalidTransitionMode     -- `AUTDDriverError::InvalidTransitionMode` (from `GainOp::pack`)
+  | stmSize (n : Nat)         -- `AUTDDriverError::GainSTMSizeOutOfRange(n)`
+deriving DecidableEq, Repr
+
+/-- `WithSegment { inner: <gain>, segment, transition_mode: Some(mode) }` for **any** mode.
+`WithSegment::operation_generator` hands segment and mode through to `GainOperationGenerator::new`,
+which runs `init_full(geometry, None, parallel)` (the caches are filled whatever happens later);
+`OperationHandler::generate` makes one calculator per enabled device (`generate`, no `calc` yet);
+`GainOp::pack` of the first enabled device then returns `InvalidTransitionMode` before any `calc`
+unless the mode is `Immediate`.  With no enabled device there is no operation, nothing is packed
+and the send is `Ok` (the `transition` of the result is then immaterial: `drives = []`). -/
+def sendMode (tree : Tree) (seg : Segment) (mode : TMode) (geo : Geo) (par : Bool) (σ : St) :
+    Except SendFail Sent × St :=
+  if mode = .immediate then
+    match send { tree := tree, wrap := some (seg, some .immediate) } geo par σ with
+    | (.error e, σ') => (.error (.gain e), σ')
+    | (.ok s, σ') => (.ok s, σ')
+  else
+    match tree.init geo none par σ with
+    | (.error e, σ') => (.error (.gain e), σ')
+    | (.ok gen, σ') =>
+      match genAll gen geo.devices with
+      | .error p => (.error (.gain (.panic p)), σ')
+      | .ok [] => (.ok { segment := seg, transition := none, drives := [] }, σ')
+      | .ok (_ :: _) => (.error .invalidTransitionMode, σ')
+
+/-- `impl GainSTMGenerator for Vec<G>`: `self.into_iter().map(|g| g.init_full(geometry, filter,
+parallel)).collect::<Result<Vec<_>, _>>()` — in order, the same geometry / filter / parallel flag for
+every element, stopping at the first failure (the remaining gains are dropped uninitialised). -/
+def stmInits (geo : Geo) (filter : Option Filter) (par : Bool) : List InitFn → St → Except Fail (List Gen) × St
+  | [], σ => (.ok [], σ)
+  | i :: rest, σ =>
+    match i geo filter par σ with
+    | (.error e, σ') => (.error e, σ')
+    | (.ok gen, σ') =>
+      match stmInits geo filter par rest σ' with
+      | (.error e, σ'') => (.error e, σ'')
+      | (.ok gens, σ'') => (.ok (gen :: gens), σ'')
+
+structure SentStm where
+  segment : Segment
+  transition : Option Transition
+  /-- per index of the sequence, the drives every enabled device receives -/
+  patterns : List (List (Nat × List Drive))
+
+/-- one `send` of `GainSTM { gains: trees, config, option: PhaseIntensityFull }`, bare or inside
+`WithSegment`: the size check (`STM_BUF_SIZE_MIN..=GAIN_STM_BUF_SIZE_MAX` = 2..=1024) comes before
+any `init_full`; `gains.init(geometry, None, parallel)`; `Vec<G::G>::generate(dev)` makes one
+calculator per element per enabled device; one frame per element carries `calc` of every transducer.
+(The Rust code generates all calculators of a device before the first `calc`; with pure
+calculators only the identity of the first panic could differ, and a panic is one answer.) -/
+def sendStm (trees : List Tree) (wrap : Option (Segment × Option Transition)) (geo : Geo) (par : Bool)
+    (σ : St) : Except SendFail SentStm × St :=
+  let n := trees.length
+  if n < 2 ∨ n > 1024 then (.error (.stmSize n), σ)
+  else
+    match stmInits geo none par (trees.map Tree.init) σ with
+    | (.error e, σ') => (.error (.gain e), σ')
+    | (.ok gens, σ') =>
+      match mapE (fun gen => drivesOf gen geo.devices) gens with
+      | .error p => (.error (.gain (.panic p)), σ')
+      | .ok ps =>
+        let tgt : Segment × Option Transition := match wrap with
+          | none => (.S0, some .immediate)
+          | some (s, tm) => (s, tm)
+        (.ok { segment := tgt.1, transition := tgt.2, patterns := ps }, σ')
+
+/-- the tuple datagram `(WithSegment { inner: g1, segment: S0, transition_mode: tm1 },
+WithSegment { inner: g2, segment: S1, transition_mode: tm2 })` (`autd3-core/src/datagram/tuple.rs`,
+`CombinedOperationGenerator` in `autd3-driver/src/datagram/tuple.rs`): `operation_generator` asks
+**both** members for their generator (same geometry, same `parallel`) before it looks at either
+result — the second gain is initialised even when the first one failed — and reports the first
+error; per enabled device one calculator of each; both gains travel in one frame when they fit,
+else in two, first the one for `S0`. -/
+def sendPair (t1 t2 : Tree) (tm1 tm2 : Option Transition) (geo : Geo) (par : Bool) (σ : St) :
+    Except Fail (Sent × Sent) × St :=
+  match t1.init geo none par σ with
+  | (r1, σ1) =>
+    match t2.init geo none par σ1 with
+    | (r2, σ2) =>
+      match r1, r2 with
+      | .error e, _ => (.error e, σ2)
+      | .ok _, .error e => (.error e, σ2)
+      | .ok g1, .ok g2 =>
+        match drivesOf g1 geo.devices with
+        | .error p => (.error (.panic p), σ2)
+        | .ok d1 =>
+          match drivesOf g2 geo.devices with
+          | .error p => (.error (.panic p), σ2)
+          | .ok d2 =>
+            (.ok ({ segment := .S0, transition := tm1, drives := d1 },
+                  { segment := .S1, transition := tm2, drives := d2 }), σ2)
+
 end Autd3.GainWrap
